@@ -3,7 +3,7 @@ CONSTANTS
   G = 2
   S = 2
   F = 1
-  MaxBlocks = 2
+  MaxBlocks = 1
   MaxRows = 2
   MaxBytes = 11
   BatchSizes = {1, 2}
